@@ -154,11 +154,7 @@ Definition recount (d : dir) : report :=
     (map (fun i => (zcount i alis, zsum (map (nstarts i None) (ali_lists d)))) (zrange (max_ali + 1)))
     (map (fun i => (rcount_of i rows, zcount i (map tok_of rows))) (zrange (max_ref + 1))).
 
-(* side conditions under which the code's report is the recount (see the _refuted theorems) *)
 Definition classes_nonneg (d : dir) : Prop := Forall (Forall (fun x => 0 <= x)) (ali_lists d).
-Definition no_empty_segment (d : dir) : Prop :=
-  Forall (Forall (fun r : row => let '(_, s, e) := r in 0 <= s -> 0 <= e -> s < e)) (ref_lists d).
-Definition tokens_counted (d : dir) : Prop := ref_lists d = [] \/ concat (ref_lists d) <> [].
 
 (* ================================================================ boolean judges *)
 
